@@ -5,7 +5,7 @@ import re
 
 from . import model
 
-INDEX_RE = re.compile(rb"^(0|[1-9][0-9]*)$")
+INDEX_RE = re.compile(rb"\A(0|[1-9][0-9]*)\Z")   # \Z, not $: "$" also matches before a trailing newline
 
 
 class PointerError(Exception):
